@@ -139,6 +139,13 @@ public:
     return Id;
   }
 
+  // class name with its template arguments (qname() prints arguments of enclosing contexts only)
+  std::string recordName(const CXXRecordDecl *RD) {
+    if (isa<ClassTemplateSpecializationDecl>(RD) && !RD->isDependentContext())
+      return Ctx.getTypeDeclType(RD).getCanonicalType().getAsString(PP);
+    return qname(RD);
+  }
+
   std::string qname(const NamedDecl *ND) {
     std::string S;
     llvm::raw_string_ostream SS(S);
@@ -758,7 +765,7 @@ public:
     jsonEscape(OS, static_cast<const Decl *>(FD)->getDeclKindName());
     if (auto *MD = dyn_cast<CXXMethodDecl>(FD)) {
       key("cls");
-      jsonEscape(OS, qname(MD->getParent()));
+      jsonEscape(OS, recordName(MD->getParent()));
       if (MD->isConst()) {
         key("const");
         OS << 1;
@@ -833,7 +840,7 @@ public:
       return;
     OS << "{\"k\":\"Record\"";
     key("q");
-    jsonEscape(OS, qname(RD));
+    jsonEscape(OS, recordName(RD));
     key("file");
     jsonEscape(OS, File);
     key("l");
